@@ -245,6 +245,48 @@ def check_group(case):
                 labels=[])
 
 
+# ---------------------------------------------------------------------- swap of scores wider than a double
+@st.composite
+def _wide_cases(draw):
+    n, m = draw(st.integers(1, 6)), draw(st.integers(1, 6))
+    return dict(kind=draw(st.sampled_from(["int64", "uint64", "longdouble"])),
+                kpos=draw(st.lists(st.integers(-8, 8), min_size=n, max_size=n)),
+                kneg=draw(st.lists(st.integers(-8, 8), min_size=m, max_size=m)),
+                ep=draw(st.sampled_from([0, 0, 3])), en=draw(st.sampled_from([0, 0, 2])))
+
+
+def check_wide(case):
+    """Scores in a type that resolves more than a double (64-bit integers beyond 2^53, extended precision):
+    the swapped object must count the very same scores."""
+    from score_analysis import Scores
+
+    kind = case["kind"]
+    if kind == "longdouble" and np.finfo(np.longdouble).nmant <= 52:
+        return dict(nontrivial=False, labels=["no-extended-precision"])
+
+    def arr(ks):
+        if kind == "int64":
+            return np.int64(2**53) + np.asarray(ks, dtype=np.int64)
+        if kind == "uint64":
+            return np.uint64(2**63) + np.asarray([k + 8 for k in ks], dtype=np.uint64)
+        return np.longdouble(1) + np.asarray(ks, dtype=np.longdouble) * np.longdouble(2) ** -60
+
+    pos, neg = arr(case["kpos"]), arr(case["kneg"])
+    thr = np.unique(np.concatenate([pos, neg]))  # thresholds at the scores, in the scores' own type
+    for sc, ec in CONFIGS:
+        o = Scores(pos, neg, nb_easy_pos=case["ep"], nb_easy_neg=case["en"], score_class=sc, equal_class=ec)
+        sw = o.swap()
+        cm, cms = o.cm(thr).matrix, sw.cm(thr).matrix
+        require(np.array_equal(cms, cm[..., ::-1, ::-1]), "sym:swap-cm",
+                lambda: f"config={sc}/{ec} {kind} scores pos-offsets={case['kpos']} neg-offsets={case['kneg']}: swap().cm "
+                        f"{cms.tolist()} vs cm with both axes reversed {cm[..., ::-1, ::-1].tolist()}")
+        for m1, m2 in SWAPPED.items():
+            require(np.array_equal(np.asarray(getattr(o, m1)(thr)), np.asarray(getattr(sw, m2)(thr)), equal_nan=True),
+                    "sym:swap-rates", f"config={sc}/{ec} {kind} scores: {m1} vs swapped {m2}")
+        require(sw.swap() == o, "sym:swap-involution", f"config={sc}/{ec} {kind}")
+    return dict(nontrivial=len(set(case["kpos"]) | set(case["kneg"])) >= 3, labels=[f"wide:{kind}"])
+
+
 PROP = Prop(
     id="C08",
     rule=("Hypothesis: score sets (ties, int dtype, floats |x|<=1e6, tie-free, empty classes, easy "
@@ -261,6 +303,8 @@ PROP = Prop(
     clauses=[
         Clause("symmetries", check, strategy=lambda tier: _cases(9 if tier == "quick" else 25), quick=250, thorough=7200, quick_shards=4,
                min_nontrivial=100, doc="swap / negation / affine metamorphic pairs"),
+        Clause("swap_wide", check_wide, strategy=_wide_cases(), quick=150, thorough=2000, quick_shards=2,
+               min_nontrivial=50, doc="swap() of int64/uint64 scores beyond 2^53 and of long-double scores 2^-60 apart"),
         Clause("group_swap", check_group, strategy=_group_cases(), quick=200, thorough=4800,
                shards=4, min_nontrivial=20, doc="GroupScores.swap()"),
     ],
